@@ -16,15 +16,16 @@ A design is a plain dict:
 A net is (name, bit or None): None is written `name`, a bit `name[bit]`; both `name` and `name[0]`
 mean bit 0 of cable `name`.
 
-Quirks (writer options that stay inside BLIF/EBLIF but that the reader is suspected to mishandle;
+Ordinary layout (drawn from the style's separator stream for every text): comment lines and blank lines at every
+line boundary - after .model, between the port lines, inside truth tables, between an instance statement and each
+of its .cname/.attr/.param lines -, `# text` after any statement on the same line, the .inputs/.outputs/.clock
+lines of a header split into several lines and in any order, the last model not closed by .end.  (These were the
+quirks hdr_gap, info_comment, trailing_comment, outputs_first, no_final_end until the reader was repaired.)
+
+Quirks (writer options that stay inside BLIF/EBLIF but that the reader mishandles;
 every one of them is a separate switch so that a failure can be attributed):
-  hdr_gap         a comment or blank line between .model and .inputs/.outputs
-  outputs_first   .outputs before .inputs
-  info_comment    a comment line between an instance statement and its .cname/.attr/.param
   latch3          .latch in out init  (three operands)
   latch_mix       a two-operand .latch before a five-operand one
-  no_final_end    the last model is not closed by .end
-  trailing_comment  `# text` after a statement on the same line
   unused_prim_first  the file starts with a declared black box that nothing instances
 (conn_early / conn_twice were quirks until merge_wires was repaired - the merged net keeps the name of the
 first operand and the other name stands for it; they are ordinary shapes of gen_design now: conn_pos, chains
@@ -33,8 +34,9 @@ still understand the two names for the corpus files written with them.)
 """
 import json, random
 
-QUIRKS = ['hdr_gap', 'outputs_first', 'info_comment', 'latch3', 'latch_mix',
-          'no_final_end', 'trailing_comment', 'unused_prim_first']
+QUIRKS = ['latch3', 'latch_mix', 'unused_prim_first']
+# repaired: ordinary layout now; still understood by render for the corpus designs written with them
+OLD_QUIRKS = ['hdr_gap', 'outputs_first', 'info_comment', 'no_final_end', 'trailing_comment']
 
 PRIM_NAMES = ['AND2', 'INV', 'FDRE', 'LUT4', 'BUFG', 'CARRY4', 'RAMB18', 'OBUF', 'IBUF', 'MUXF7', 'DSP48E1', 'X_y.z']
 PORT_NAMES_IN = ['I', 'A', 'B', 'C', 'D', 'CE', 'R', 'S', 'I0', 'I1', 'ADDR', 'DI', 'CLK', 'sel']
@@ -263,7 +265,17 @@ def render(design, rng, quirks=(), style=None):
             s += t
         if 'trailing_comment' in q and tokens and tokens[0] in ('.subckt', '.names'):
             s += ' # note'
+        elif sep_rng.random() < 0.08:
+            s += sep_rng.choice([' ', '\t', '  ']) + sep_rng.choice(['# note', '#note', '# a=b .end', '#', '# .cname x \\'])
         out.append(s + sep_rng.choice(['', '', ' ', '\t']))
+
+    def gap():
+        """a line boundary inside a group of lines that belong together"""
+        r = sep_rng.random()
+        if r < 0.06:
+            out.append(sep_rng.choice(['', '', ' ', '\t']))
+        elif r < 0.12:
+            out.append(sep_rng.choice(['# ', '#', '  # ']) + ' '.join(sep_rng.choice(WORDS) for _ in range(sep_rng.randint(0, 3))))
 
     def filler():
         r = sep_rng.random()
@@ -282,26 +294,35 @@ def render(design, rng, quirks=(), style=None):
                     toks += ['%s[%d]' % (p, k) for k in range(w)]
         return toks
 
-    def header(name, ports):
+    def header(name, ports, clock=None):
         emit(['.model', name], allow_cont=False)
         if 'hdr_gap' in q:
             out.append(sep_rng.choice(['', '# ports follow']))
+        gap()
         ins = port_toks(ports, ('in', 'inout'))
         outs = port_toks(ports, ('out', 'inout'))
+        hdr = []
 
         def lines(kw, toks):
             if len(toks) > 2 and sep_rng.random() < 0.3:       # several .inputs lines
                 k = sep_rng.randint(1, len(toks) - 1)
-                emit([kw] + toks[:k])
-                emit([kw] + toks[k:])
+                hdr.append([kw] + toks[:k])
+                hdr.append([kw] + toks[k:])
             else:
-                emit([kw] + toks)
+                hdr.append([kw] + toks)
         if 'outputs_first' in q:
             lines('.outputs', outs)
             lines('.inputs', ins)
         else:
             lines('.inputs', ins)
             lines('.outputs', outs)
+        if clock:
+            hdr.append(['.clock'] + clock)
+        if sep_rng.random() < 0.25:                            # the port lines in any order
+            sep_rng.shuffle(hdr)
+        for l in hdr:
+            emit(l)
+            gap()
 
     def prim_models(names):
         for name in names:
@@ -336,9 +357,7 @@ def render(design, rng, quirks=(), style=None):
         prim_models(declared[:len(declared) // 2])
         declared = declared[len(declared) // 2:]
     filler()
-    header(design['top'], design['ports'])
-    if design['clock']:
-        emit(['.clock'] + design['clock'])
+    header(design['top'], design['ports'], design['clock'])
     filler()
 
     def inst_lines(inst):
@@ -351,7 +370,8 @@ def render(design, rng, quirks=(), style=None):
         elif inst['kind'] == 'names':
             emit(['.names'] + [net_tok(n) for n in inst['nets']])
             for (a, b) in inst['rows']:
-                out.append(a if b is None else a + ' ' + b)
+                gap()
+                out.append((a if b is None else a + ' ' + b) + (' # row' if sep_rng.random() < 0.04 else ''))
         else:
             toks = list(inst['toks'])
             if 'latch3' in q and len(toks) == 5:
@@ -365,9 +385,8 @@ def render(design, rng, quirks=(), style=None):
         if 'info_comment' in q and infos:
             out.append('# info of the instance above')
         for k, i in enumerate(infos):
+            gap()
             emit(i, allow_cont=False)
-            if k + 1 < len(infos) and sep_rng.random() < 0.1:
-                out.append('')                      # blank lines inside the info block are harmless
 
     insts = list(design['insts'])
     if 'latch_mix' in q:
@@ -388,7 +407,8 @@ def render(design, rng, quirks=(), style=None):
         emit(['.conn', net_tok(a), net_tok(b)], allow_cont=False)
         filler()
     last_is_top = not declared
-    if not ('no_final_end' in q and last_is_top):
+    final_end = 'no_final_end' not in q and sep_rng.random() >= 0.12
+    if final_end or not last_is_top:
         emit(['.end'], allow_cont=False)
     filler()
     if declared:
@@ -396,7 +416,7 @@ def render(design, rng, quirks=(), style=None):
         name = declared[-1]
         header(name, design['prims'][name]['ports'])
         emit(['.blackbox'], allow_cont=False)
-        if 'no_final_end' not in q:
+        if final_end:
             emit(['.end'], allow_cont=False)
     text = '\n'.join(out)
     if choice('final_newline', [True, True, False]):
